@@ -421,8 +421,92 @@ def case_features(case):
 
 
 # ---------------------------------------------------------------- building
+def ival(v):
+  """protocol string of an integer -> Python int."""
+  q = Fraction(v)
+  assert q.denominator == 1, 'integer-typed description with the non-integer %s' % v
+  return int(q)
+
+
+def ivec(v, as_list=False):
+  """scalar-or-vector integer parameter -> int / integer ndarray (or a plain list of ints)."""
+  if isinstance(v, list):
+    return [ival(x) for x in v] if as_list else np().array([ival(x) for x in v], dtype=int)
+  return ival(v)
+
+
+def build_leaf_int(d, id=None):
+  """the INTEGER-TYPED twin of build.build_leaf: every bound, cumulative bound and scalar / vector parameter is handed
+  to the constructor as a Python int, a list of ints or an integer ndarray (`_py.int_typed`).  The description (and so
+  the model's answer) is the same as for the float-typed device with these values."""
+  n_ = np(); dk = C.repo()
+  cls, n, p, py = d['cls'], d['n'], d.get('prm', {}), d.get('_py', {})
+  id = id or cls.lower()
+  lb = [ival(x) for x in d['lb']]; hb = [ival(x) for x in d['hb']]
+  form = py.get('bform', 'pair')
+  if form == 'scalar': b = (lb[0], hb[0])
+  elif form == 'lists': b = (list(lb), list(hb))
+  elif form == 'table': b = n_.stack((n_.array(lb, dtype=int), n_.array(hb, dtype=int)), axis=1)
+  elif form == 'table_list': b = [[x, y] for x, y in zip(lb, hb)]
+  else: b = (n_.array(lb, dtype=int), n_.array(hb, dtype=int))
+  cb = None
+  if d.get('cbs') and py.get('cform') is not None:
+    cbs = [(ival(c[0]), ival(c[1]), int(c[2]), int(c[3])) for c in d['cbs']]
+    cb = (cbs[0][0], cbs[0][1]) if py['cform'] == '2tuple' else cbs
+  aslist = bool(py.get('vec_as_list'))
+  if cls == 'Device': return dk.Device(id, n, b, cb)
+  if cls == 'PVDevice': return dk.PVDevice(id, n, b, cb)
+  if cls == 'CDevice': return dk.CDevice(id, n, b, cb, a=ival(p['a']), b=ival(p['b']))
+  if cls == 'CDevice2': return dk.CDevice2(id, n, b, cb, p_l=ival(p['p_l']), p_h=ival(p['p_h']))
+  if cls == 'IDevice': return dk.IDevice(id, n, b, cb, a=ivec(p['a'], aslist), b=ivec(p['b'], aslist), c=ivec(p['c'], aslist))
+  if cls == 'IDevice2': return dk.IDevice2(id, n, b, cb, p_l=ivec(p['p_l'], aslist), p_h=ivec(p['p_h'], aslist))
+  if cls == 'GDevice':
+    if py.get('no_coeffs'): return dk.GDevice(id, n, b, cb)
+    cc = p['cost_coeffs']
+    cc = [[ival(x) for x in r] for r in cc] if isinstance(cc[0], list) else [ival(x) for x in cc]
+    return dk.GDevice(id, n, b, cb, cost_coeffs=cc if aslist else n_.array(cc, dtype=int))
+  if cls == 'SDevice':
+    kw = {k: ival(v) for k, v in p.items() if k != 'rate_clip'}
+    if 'rate_clip' in p:
+      kw['rate_clip'] = tuple(None if x is None else ival(x) for x in p['rate_clip'])
+    return dk.SDevice(id, n, b, cb, **kw)
+  if cls == 'TDevice':
+    te = [ival(x) for x in p['t_external']]
+    return dk.TDevice(id, n, b, ival(p['sustainment']), ival(p['efficiency']), ival(p['t_init']), ival(p['t_optimal']), ival(p['t_range']),
+                      te if aslist else n_.array(te, dtype=int), c=ivec(p['c'], aslist), cbounds=cb)
+  if cls == 'ADevice':
+    kw = {}
+    ff = py.get('f_form')
+    if ff == 'empty_sum':
+      from device_kit import functions as Fm
+      kw['f'] = Fm.SumFunction([])
+    elif ff != 'default':
+      kw['f'] = build.build_fn(build.annotate_fn(p['f'], n))
+    if '_constraints' in d:
+      kw['constraints'] = d['_constraints']
+    return dk.ADevice(id, n, b, cb, **kw)
+  raise ValueError('unknown class ' + cls)
+
+
+def flow_of(case, key='s'):
+  """the flow array of a case: float64, or an INTEGER-typed array for the integer family (`_int`)."""
+  if case.get('_int'):
+    v = case[key]
+    return np().array([[ival(x) for x in r] for r in v] if isinstance(v[0], list) else [ival(x) for x in v], dtype=int)
+  return build.arr(case[key])
+
+
+def price_of(case, key='p'):
+  p = case[key]
+  if case.get('_int') and case.get('_pint'):
+    return np().array(build.jf(p)).astype(int) if isinstance(p, list) else ival(p)
+  return build.price(p)
+
+
 def build_leaf10(d, id=None):
   """build.build_leaf plus the ADevice forms the description language flags privately."""
+  if d.get('_py', {}).get('int_typed'):
+    return build_leaf_int(d, id)
   ff = d.get('_py', {}).get('f_form')
   if d['cls'] == 'ADevice' and ff:
     dk = C.repo()
@@ -448,16 +532,18 @@ def build_tree10(t):
     if t['k'] == 'leaf':
       return dev
     if 'ratios' in t and (t['ratios'] or t.get('_ratios_none')):
-      r = None if t.get('_ratios_none') else [pf(x) for x in t['ratios']]
+      r = None if t.get('_ratios_none') else [(ival(x) if t.get('_int') else pf(x)) for x in t['ratios']]
       return dk.TwoRatioMFDeviceSet(dev, list(t['flows']), r, t.get('ctype', 'eq'))
     return dk.MFDeviceSet(dev, list(t['flows']))
   kids = [build_tree10(c) for c in t['ch']]
   sb = None
   if t.get('sb') is not None:
     sb = np().array([[pf(a), pf(b)] for a, b in t['sb']])
+    if t.get('_int'):
+      sb = np().array([[ival(a), ival(b)] for a, b in t['sb']], dtype=int)
   if t.get('sub'):
     return dk.SubBalancedDeviceSet(t['id'], kids, sb, labels=list(t.get('labels', [])), constraint_type=t.get('ctype', 'eq'),
-                                   sign=pf(t.get('sign', '1')), apply_to_remaining=bool(t.get('rem', False)))
+                                   sign=(ival(t.get('sign', '1')) if t.get('_int') else pf(t.get('sign', '1'))), apply_to_remaining=bool(t.get('rem', False)))
   return dk.DeviceSet(t['id'], kids, sb)
 
 
@@ -551,10 +637,12 @@ def usable(dev, x_shaped, price, want_hess=True, flat_and_shaped=True):
   return uniq
 
 
-def failure(cls, kind, what, exc, corner, msg, where):
+def failure(cls, kind, what, exc, corner, msg, where, dtype=None):
   key = {'cls': cls, 'kind': kind, 'what': what, 'corner': corner or 'none'}
   if exc:
     key['exc'] = exc
+  if dtype:
+    key['dtype'] = dtype
   return {'key': key, 'detail': '%s %s — %s' % (cls, where, msg)}
 
 
@@ -606,6 +694,149 @@ def leaf_case(rng, tier, n, cls=None, corners_ok=False):
   if not corners_ok:
     avoid_leaf_corner(rng, case)
   return case
+
+
+# ---------------------------------------------------------------- the integer-typed family
+INT_SIGN = {'PVDevice': '-', 'GDevice': '-', 'CDevice': '+', 'CDevice2': '+', 'IDevice': '+', 'IDevice2': '+'}
+
+
+def int_leaf(rng, cls, n, one_way=False):
+  """an all-integer description of a leaf: bounds given as ints (e.g. (-2, 2)), integer scalar / vector parameters
+  (efficiency = 1, sustainment = 1, capacity = 10, a = -1, c = 2, integer temperatures, integer coefficients)."""
+  sign = INT_SIGN.get(cls, rng.choice([None, None, '+', '-']))
+  if one_way and sign is None:
+    sign = '+'
+  def slot():
+    if sign == '+':
+      a = rng.randint(0, 2); return a, a + rng.randint(0, 3)
+    if sign == '-':
+      b = -rng.randint(0, 2); return b - rng.randint(0, 3), b
+    return -rng.randint(0, 3), rng.randint(0, 3)
+  if rng.random() < 0.5:
+    a, b = slot()
+    if a == b:
+      a, b = (a - 1, b) if sign == '-' else (a, b + 1)
+    lb, hb = [a] * n, [b] * n
+  else:
+    sl = [slot() for _ in range(n)]
+    lb, hb = [x for x, _ in sl], [y for _, y in sl]
+  if cls == 'CDevice2' and sum(lb) == sum(hb):
+    hb[0] += 1
+  uniform = len(set(lb)) == 1 and len(set(hb)) == 1
+  py = {'int_typed': True, 'cform': None, 'vec_as_list': rng.random() < 0.5,
+        'bform': rng.choice((['scalar', 'scalar'] if uniform else []) + (['pair', 'lists'] if n != 2 else []) + ['table', 'table_list'])}
+  d = {'cls': cls, 'n': n, 'lb': [str(x) for x in lb], 'hb': [str(x) for x in hb], 'cbs': [], 'prm': {}, '_py': py}
+  lo, hi = sum(lb), sum(hb)
+  if cls == 'CDevice2' or rng.random() < 0.4:
+    l, h = lo - rng.randint(0, 1), hi + rng.randint(0, 1)
+    if l >= h:
+      h = l + 1
+    d['cbs'] = [[str(l), str(h), 0, n]]
+    py['cform'] = rng.choice(['2tuple', '4tuples'])
+    if cls == 'CDevice2' and rng.random() < 0.3:
+      d['cbs'] = [[str(lo), str(hi), 0, n]]; py['cform'] = None
+  p = d['prm']
+  sv = lambda f: [str(f()) for _ in range(n)] if rng.random() < 0.5 else str(f())
+  if cls == 'CDevice':
+    p['a'] = str(rng.choice([-1, 0, -2])); p['b'] = str(rng.choice([0, 1, 2]))
+  elif cls == 'CDevice2':
+    pl = rng.randint(-3, 0); p['p_l'] = str(pl); p['p_h'] = str(rng.randint(pl, 0))
+  elif cls == 'IDevice2':
+    if rng.random() < 0.5:
+      pl = rng.randint(-3, 0); p['p_l'] = str(pl); p['p_h'] = str(rng.randint(pl, 0))
+    else:
+      pls = [rng.randint(-3, 0) for _ in range(n)]
+      p['p_l'] = [str(x) for x in pls]; p['p_h'] = [str(rng.randint(x, 0)) for x in pls]
+  elif cls == 'IDevice':
+    p['a'] = sv(lambda: rng.choice([0, 0, 1, 2])); p['b'] = sv(lambda: rng.choice([1, 2, 2, 3])); p['c'] = sv(lambda: rng.choice([0, 1, 2]))
+  elif cls == 'GDevice':
+    deg = rng.randint(0, 3)
+    row = lambda: [str(rng.randint(0, 2)) for _ in range(deg + 1)]
+    q = rng.random()
+    if q < 0.15:
+      p['cost_coeffs'] = []; py['no_coeffs'] = True
+    else:
+      p['cost_coeffs'] = row() if q < 0.6 else [row() for _ in range(n)]
+  elif cls == 'SDevice':
+    c1 = rng.choice([0, 1, 2]); c2 = rng.randint(0, c1)
+    p.update({'c1': str(c1), 'c2': str(c2), 'c3': str(rng.choice([0, 1])), 'capacity': str(rng.choice([1, 4, 10])),
+              'damage_depth': str(rng.choice([0, 1])), 'start': str(rng.choice([0, 1])), 'reserve': str(rng.choice([0, 1])),
+              'efficiency': '1', 'sustainment': '1'})
+    if rng.random() < 0.4:
+      p['rate_clip'] = rng.choice([['1', '1'], ['1', None], [None, '2'], ['2', '1']])
+  elif cls == 'TDevice':
+    p.update({'sustainment': str(rng.choice([0, 1, 1])), 'efficiency': str(rng.choice([1, 1, -1, 2, -2, 3])), 't_init': str(rng.randint(-5, 25)),
+              't_optimal': str(rng.randint(15, 25)), 't_range': str(rng.choice([0, 1, 3, 6])), 't_external': [str(rng.randint(-8, 30)) for _ in range(n)],
+              'c': sv(lambda: rng.choice([0, 1, 2, 3]))})
+  elif cls == 'ADevice':
+    q = rng.random()
+    if q < 0.25:
+      p['f'] = {'k': 'null'}; py['f_form'] = 'default'
+    elif q < 0.4:
+      p['f'] = {'k': 'null'}; py['f_form'] = 'empty_sum'
+    else:
+      p['f'] = gen.gen_fn(rng, n, [F(x) for x in lb], [F(x) for x in hb])
+  return d
+
+
+def int_flow(rng, lb, hb, mode):
+  """an integer in-bounds flow: the bounds themselves, zeros when feasible, or integer points in between."""
+  if mode == 'zeros' and not all(a <= 0 <= b for a, b in zip(lb, hb)):
+    mode = 'mixed'
+  pick = {'lower': lambda a, b: a, 'upper': lambda a, b: b, 'zeros': lambda a, b: 0,
+          'interior': lambda a, b: rng.randint(a, b), 'mixed': lambda a, b: rng.choice([a, b, rng.randint(a, b)])}[mode]
+  return [pick(a, b) for a, b in zip(lb, hb)], mode
+
+
+def int_price(rng, n):
+  q = rng.random()
+  if q < 0.35: return str(rng.randint(-3, 3)), True
+  if q < 0.6: return [str(rng.randint(-3, 3)) for _ in range(n)], True
+  return gen.gen_price(rng, n), False
+
+
+def int_leaf_case(rng, tier, n, cls=None, mode=None):
+  cls = cls or rng.choice(LEAF_CLASSES)
+  d = int_leaf(rng, cls, n)
+  s, mode = int_flow(rng, [ival(x) for x in d['lb']], [ival(x) for x in d['hb']], mode or rng.choice(['lower', 'upper', 'zeros', 'interior', 'mixed']))
+  p, pint = int_price(rng, n)
+  return {'kind': 'leaf', 'dev': d, 's': [str(x) for x in s], 'p': p, '_flow': mode, '_shape': rng.choice(['flat', 'row']), '_int': True, '_pint': pint}
+
+
+def int_tree_case(rng, tier, n):
+  """sets over integer-typed leaves, integer aggregate bounds / ratios / sign, and an integer-typed flow matrix."""
+  cnt = [0]
+  def fresh(pre):
+    cnt[0] += 1
+    return '%s%d' % (pre, cnt[0])
+  def leaf():
+    return {'k': 'leaf', 'id': fresh(rng.choice(['a', 'e', 'h'])), 'dev': int_leaf(rng, rng.choice(LEAF_CLASSES), n)}
+  def mf():
+    cls = rng.choice(['Device', 'CDevice', 'CDevice2', 'IDevice', 'IDevice2', 'GDevice', 'PVDevice', 'ADevice'])
+    t = {'k': 'mf', 'id': fresh('m'), 'dev': int_leaf(rng, cls, n, one_way=True), 'flows': ['e', 'h', 'g'][:rng.choice([1, 2, 2, 3])], 'ratios': None, '_int': True}
+    if len(t['flows']) == 2 and rng.random() < 0.5:
+      t['ratios'] = [str(rng.randint(1, 3)), str(rng.randint(1, 3))]; t['ctype'] = rng.choice(['eq', 'ineq'])
+    return t
+  def node(depth, root=False):
+    kids = []
+    for _ in range(rng.randint(2, 3) if root else rng.randint(1, 2)):
+      q = rng.random()
+      kids.append(node(depth - 1) if depth > 1 and q < 0.3 else mf() if q < 0.55 else leaf())
+    t = {'k': 'node', 'id': 'root' if root else fresh('s'), 'sb': None, 'ch': kids, 'sub': False, '_int': True}
+    if rng.random() < 0.6:
+      t['sb'] = [[str(v), str(v)] if rng.random() < 0.25 else [str(-rng.randint(0, 6)), str(rng.randint(0, 8))] for v in [rng.randint(-2, 4) for _ in range(n)]]
+    if rng.random() < 0.35:
+      t.update({'sub': True, 'labels': rng.sample(['e', 'h', 'g', '1'], rng.randint(1, 2)), 'ctype': rng.choice(['eq', 'ineq']),
+                'sign': rng.choice(['1', '-1']), 'rem': rng.random() < 0.4})
+    return t
+  t = mf() if rng.random() < 0.2 else node(rng.choice([1, 2]), root=True)
+  lb, hb = gen.tree_box(t, n)
+  flat, mode = int_flow(rng, [int(x) for x in lb], [int(x) for x in hb], rng.choice(['lower', 'upper', 'zeros', 'interior', 'mixed']))
+  R = gen.tree_rows(t)
+  q = rng.random()
+  P, pint = (str(rng.randint(-3, 3)), True) if q < 0.3 else ([str(rng.randint(-3, 3)) for _ in range(n)], True) if q < 0.5 else (gen.gen_price_mat(rng, R, n), False)
+  return {'kind': 'tree', 'tree': t, 'n': n, 'S': [[str(x) for x in flat[r*n:(r + 1)*n]] for r in range(R)], 'P': P,
+          '_flow': mode, '_shape': rng.choice(['flat', 'mat']), '_int': True, '_pint': pint}
 
 
 def boundary_tree(rng, tier, n):
@@ -849,10 +1080,26 @@ class C10(Prop):
       if cls != 'ADevice':
         for opt in accept_options(cls):
           out.append(accept_case(rng, tier, rng.choice(ns), cls, opt))
+    # … every form of the SDevice rate clip (both, discharge only, charge only, unequal), float- and integer-typed
+    for rc in (['1', '1'], ['1', None], [None, '2'], ['3/2', '1']):
+      c = leaf_case(rng, tier, rng.choice([x for x in ns if x <= 6]), 'SDevice'); c['dev']['prm']['rate_clip'] = list(rc); out.append(c)
+    for rc in (['1', '1'], ['1', None], [None, '2'], ['2', '1']):
+      c = int_leaf_case(rng, tier, rng.choice([x for x in ns if x <= 6]), 'SDevice'); c['dev']['prm']['rate_clip'] = list(rc); out.append(c)
+    # … and every class with INTEGER-typed bounds / parameters / flows: on both bounds, at zero, in between
+    small = [x for x in ns if x <= 6]
+    for cls in LEAF_CLASSES:
+      for mode in ('lower', 'upper', 'zeros', 'interior'):
+        out.append(int_leaf_case(rng, tier, rng.choice(small if cls in NUMERIC_HESS else ns), cls, mode))
+    for _ in range(12):
+      out.append(int_tree_case(rng, tier, rng.choice(small)))
     while len(out) < count:
       n = rng.choice(ns)
       q = rng.random()
-      if q < 0.5:
+      if q < 0.12:
+        out.append(int_leaf_case(rng, tier, n))
+      elif q < 0.17:
+        out.append(int_tree_case(rng, tier, min(n, 6)))
+      elif q < 0.5:
         out.append(leaf_case(rng, tier, n))
       elif q < 0.75:
         out.append(tree_case(rng, tier, min(n, 6) if tier == 'quick' else n))
@@ -889,6 +1136,7 @@ class C10(Prop):
       bump('accept', c['_why'].split('=')[0])
     if '_shape' in c:
       bump('shape', c['_shape'])
+    bump('dtype', 'int' if c.get('_int') else 'float')
     for f in case_features(c):
       bump('feature', f)
 
@@ -919,10 +1167,10 @@ class C10(Prop):
       if any(x.denominator != 1 for _, bb, _, _, _ in abc_uses(d, [F(0)] * n) for x in bb):
         return []                                     # real exponents: theorem + oracle, not T2
       dev = build_leaf10(d)
-      s = build.arr(case['s'])
+      s = flow_of(case)
       if case['_shape'] == 'row':
         s = s.reshape(1, -1)
-      pr = build.price(case['p'])
+      pr = price_of(case)
       ops = [Op({'op': 'usable.leaf.cost', 'dev': d, 's': case['s'], 'p': case['p']}, lambda: defined(dev.cost(s, pr)), 1e-9, 'leaf.cost'),
              Op({'op': 'usable.leaf.deriv', 'dev': d, 's': case['s'], 'p': case['p']}, lambda: defined(dev.deriv(s, pr)), 1e-9, 'leaf.deriv'),
              Op({'op': 'usable.leafcons', 'dev': d, 's': case['s']}, lambda: Rows(cons_rows(dev, s)), 1e-9, 'leaf.cons')]
@@ -932,10 +1180,10 @@ class C10(Prop):
     if k == 'tree':
       t, n = case['tree'], case['n']
       dev = build_tree10(t)
-      S = build.arr(case['S'])
+      S = flow_of(case, 'S')
       if case['_shape'] == 'flat':
         S = S.reshape(-1)
-      P = build.price(case['P'])
+      P = price_of(case, 'P')
       return [Op({'op': 'usable.tree.cost', 'tree': t, 'n': n, 'S': case['S'], 'P': case['P']}, lambda: defined(dev.cost(S, P)), 1e-9, 'tree.cost'),
               Op({'op': 'usable.tree.deriv', 'tree': t, 'n': n, 'S': case['S'], 'P': case['P']}, lambda: defined(dev.deriv(S, P)), 1e-9, 'tree.deriv'),
               Op({'op': 'usable.treecons', 'tree': t, 'n': n, 'S': case['S']}, lambda: Rows(cons_rows(dev, S)), 1e-9, 'tree.cons')]
@@ -972,12 +1220,15 @@ class C10(Prop):
         dev = build_leaf10(d)
       except Exception as e:
         return [failure(d['cls'], 'raises', 'constructor', type(e).__name__, None, 'constructor rejects a configuration meant to be valid: %s' % str(e)[:150],
-                        'n=%d prm=%s' % (d['n'], d['prm']))]
-      x = build.arr(case['s']).reshape(dev.shape)
-      pr = build.price(case['p'])
+                        '%sn=%d prm=%s lb=%s hb=%s cbs=%s' % ('INTEGER-typed bounds/parameters (%s) ' % d['_py'] if case.get('_int') else '', d['n'], d['prm'], d['lb'], d['hb'], d.get('cbs')),
+                        dtype='int' if case.get('_int') else None)]
+      x = flow_of(case).reshape(dev.shape)
+      pr = price_of(case)
+      typed = 'INTEGER-typed bounds/parameters (%s) and flow (dtype %s) ' % (d['_py'], x.dtype) if case.get('_int') else ''
       for kind, what, exc, msg in usable(dev, x, pr, want_hess=(d['cls'] not in NUMERIC_HESS or numeric_hess_ok(case, d['n']))):
         fails.append(failure(d['cls'], kind, what, exc, leaf_corner(case, what), msg,
-                             'n=%d prm=%s lb=%s hb=%s cbs=%s s=%s p=%s' % (d['n'], d['prm'], d['lb'], d['hb'], d.get('cbs'), case['s'], case['p'])))
+                             '%sn=%d prm=%s lb=%s hb=%s cbs=%s s=%s p=%s' % (typed, d['n'], d['prm'], d['lb'], d['hb'], d.get('cbs'), case['s'], case['p']),
+                             dtype='int' if case.get('_int') else None))
       return fails
     if k == 'tree':
       t, n = case['tree'], case['n']
@@ -987,11 +1238,13 @@ class C10(Prop):
         return [failure('DeviceSet', 'raises', 'constructor', type(e).__name__, None, 'constructor rejects a tree meant to be valid: %s' % str(e)[:150], 'n=%d' % n)]
       blocks = gen.tree_leaves(t)
       numeric = any(b['dev']['cls'] in NUMERIC_HESS for b in blocks)
-      x = build.arr(case['S']).reshape(dev.shape)
+      x = flow_of(case, 'S').reshape(dev.shape)
       cls = type(dev).__name__
-      for kind, what, exc, msg in usable(dev, x, build.price(case['P']), want_hess=(not numeric or numeric_hess_ok(case, n, tree=True))):
-        fails.append(failure(cls, kind, what, exc, None, msg, 'n=%d rows=%d leaves=%s S=%s' % (
-          n, dev.shape[0], [('MF:' if b['k'] == 'mf' else '') + b['dev']['cls'] for b in blocks], case['S'])))
+      typed = 'INTEGER-typed leaves and flow (dtype %s) ' % x.dtype if case.get('_int') else ''
+      for kind, what, exc, msg in usable(dev, x, price_of(case, 'P'), want_hess=(not numeric or numeric_hess_ok(case, n, tree=True))):
+        fails.append(failure(cls, kind, what, exc, None, msg, '%sn=%d rows=%d leaves=%s S=%s' % (
+          typed, n, dev.shape[0], [('MF:' if b['k'] == 'mf' else '') + b['dev']['cls'] for b in blocks], case['S']),
+          dtype='int' if case.get('_int') else None))
       return fails
     # raw
     if case['what'] == 'len0':
